@@ -272,7 +272,8 @@ FileStep(s, e) ==
         IF e.r.k # "ok" THEN [m |-> m, v |-> {"C02.truncate"}, ooc |-> FALSE]
         ELSE [m |-> [AfterTruncate(m, h) EXCEPT !.nodes[n].mtAlt = Trunc2s(s.clk)], v |-> {}, ooc |-> FALSE]
      [] e.op = "flush" ->
-        IF e.r.k # "ok" THEN [m |-> m, v |-> {"C02.flush"}, ooc |-> FALSE]
+        IF Has(e, "flt") /\ e.r.k = "err" THEN [m |-> m, v |-> {}, ooc |-> FALSE]
+        ELSE IF e.r.k # "ok" THEN [m |-> m, v |-> {"C02.flush"}, ooc |-> FALSE]
         ELSE [m |-> AfterFlush(m, h), v |-> {}, ooc |-> FALSE]
      [] e.op = "close" -> [m |-> DropFileHandle(m, h), v |-> {}, ooc |-> FALSE]
      [] e.op = "set_created" -> [m |-> [m EXCEPT !.nodes[n].ct = Trunc10ms(a.t), !.fh[h].dirty = TRUE], v |-> {}, ooc |-> FALSE]
@@ -368,6 +369,9 @@ Step(s, e) ==
            \/ (Has(e.a, "to") /\ e.a.to # "" /\ e.a.to \notin DOMAIN s.m.dh)
         THEN [s |-> s, v |-> {}, dev |-> {}, note |-> {}]
         ELSE [s |-> [s EXCEPT !.dead = TRUE], v |-> {}, dev |-> {}, note |-> {"SKIP"}]
+   ELSE IF Has(e, "flt") /\ e.flt.drop = FALSE /\ ~(e.op = "flush" /\ e.r.k = "err" /\ e.r.e = "Io") THEN
+        \* an injected storage fault (C09 judges those traces): only a failed explicit flush has a defined continuation here
+        [s |-> [s EXCEPT !.dead = TRUE], v |-> {}, dev |-> {}, note |-> {"FAULT"}]
    ELSE IF e.r.k \in {"panic", "hang"} THEN
         [s |-> [s EXCEPT !.dead = TRUE], v |-> {IF e.r.k = "panic" THEN "C00.panic" ELSE "C00.hang"}, dev |-> {}, note |-> {}]
    ELSE
